@@ -5,15 +5,17 @@ The flat symbol table of `Model/Scopes` extended with source positions.  A progr
 of its parso *leaves* in source order (start / end position, the scope node jedi's
 `parent_scope(leaf)` walk reaches, whether the leaf is a parameter's own name) and the table of
 its *scope nodes* (`file_input` = 0, `funcdef`, `classdef`, `lambdef`, `sync_comp_for`) with
-`start_pos`, the position of the first `:` child, `children[-1].start_pos`, `end_pos` and the
-result of `parent_scope(node)`.  The harness derives source text and table from one abstract
+`start_pos`, the position of the first `:` child, `children[-1].start_pos`, `end_pos`, the
+result of `parent_scope(node)` and the start of the statement (`async def`: the `async` keyword).  The harness derives source text and table from one abstract
 program (`harness/gen/nesting.py`), and cross-checks the table against the parso tree.
 
 jedi side (transcriptions):
 * `getContext`  — `Script.get_context` (jedi/api/__init__.py) with
-  `TreeContextMixin.create_context` / `create_value` (jedi/inference/context.py),
-  `FunctionValue.from_context` (class contexts skipped) and `BaseName.parent`;
-* `parentOf`    — `BaseName.parent` (jedi/api/classes.py);
+  `TreeContextMixin.create_context` / `create_value` (jedi/inference/context.py) and
+  `BaseName.parent`;
+* `parentOf`    — `BaseName.parent` (jedi/api/classes.py): functions, classes and parameters by
+  `search_ancestor`, lambdas by `create_context(lambda node)` (the `parent_context` of a function
+  value, from which `FunctionValue.from_context` removes the class contexts, is not consulted);
 * `fullName`    — `BaseName.full_name` over `get_qualified_names` (jedi/inference/names.py,
   value/function.py `FunctionAndClassBase` / `MethodValue`, context.py).
 
@@ -60,6 +62,9 @@ structure NScope where
   suite : Pos
   stop : Pos
   name : String
+  /-- `node.parent.start_pos` when the parent is an `async_stmt` / `async_funcdef`, else
+  `node.start_pos`: the position whose column the indentation loop of `get_context` looks at -/
+  stmt : Pos := start
 deriving Repr
 
 structure NProg where
@@ -157,23 +162,9 @@ def nodeCtx (p : NProg) (c : Nat) : Nat :=
   | none => 0
   | some sc => createContext p sc.start sc.pscope false
 
-/-- `FunctionValue.from_context`: `while parent_context.is_class(): parent_context =
-parent_context.parent_context` (a class value's parent context is `create_context(classdef)`) -/
-def skipClasses (p : NProg) : Nat → Nat → Nat
-  | 0, c => c
-  | fuel + 1, c => if p.kind c = .klass then skipClasses p fuel (nodeCtx p c) else c
-
-/-- `context.parent_context`.  Comprehension contexts: `from_scope_node(parent_scope(..))` of
-the same `create_context` call; every consumer skips contexts without a name at once, so the
-next scope of the chain is returned (see `skipComps`). -/
-def ctxParent (p : NProg) (c : Nat) : Option Nat :=
-  match p.kind c with
-  | .module => none
-  | .comp => some (p.pscope c)
-  | .klass => some (nodeCtx p c)
-  | .function | .lambda => some (skipClasses p p.fuel (nodeCtx p c))
-
-/-- `while context.name is None: context = context.parent_context  # comprehensions` -/
+/-- `while context.name is None: context = context.parent_context  # comprehensions`
+(the parent context of a comprehension context is `from_scope_node(parent_scope(..))` of the same
+`create_context` call) -/
 def skipComps (p : NProg) : Nat → Nat → Nat
   | 0, c => c
   | fuel + 1, c => if p.kind c = .comp then skipComps p fuel (p.pscope c) else c
@@ -194,12 +185,13 @@ def parentOfScope (p : NProg) (c : Nat) : Option Nat :=
     -- type in ('function', 'class') and tree_name is not None: the tree decides
     some (defOrModule p (p.pscope c))
   | .lambda =>
-    -- LambdaName has no tree_name: `context = self._name.parent_context`
-    (ctxParent p c).map (skipComps p p.fuel)
+    -- LambdaName (also wrapped in FunctionNameInClass) has no tree_name:
+    -- `context = module_context.create_context(lambda_value.tree_node)`, comprehensions skipped
+    some (skipComps p p.fuel (nodeCtx p c))
   | .comp => none     -- a comprehension context has no name
 
-/-- the indentation loop of `get_context`: climb while the definition does not start left of
-`column` (lambdas, having no tree name, always climb) -/
+/-- the indentation loop of `get_context`: climb while the definition's statement (`async def`:
+the `async` keyword) does not start left of `column` (lambdas, having no tree name, always climb) -/
 def walkUp (p : NProg) (column : Nat) : Nat → Nat → Except Err Nat
   | 0, _ => .error .internal
   | fuel + 1, c =>
@@ -207,7 +199,7 @@ def walkUp (p : NProg) (column : Nat) : Nat → Nat → Except Err Nat
     | none => .error .internal
     | some sc =>
       if sc.kind == .module then .ok c
-      else if (sc.kind == .function || sc.kind == .klass) && decide (sc.start.col < column) then .ok c
+      else if (sc.kind == .function || sc.kind == .klass) && decide (sc.stmt.col < column) then .ok c
       else match parentOfScope p c with
         | none => .error .internal     -- `None.type` would raise AttributeError
         | some c' => walkUp p column fuel c'
